@@ -209,13 +209,19 @@ class SnapshotManager:
         """Get the most recent snapshot before or at the given timestamp"""
         snapshots = self.get_all_snapshots()
 
-        # Find the most recent snapshot at or before the timestamp
+        # The most recently COMMITTED snapshot at or before the timestamp (as
+        # Iceberg's as-of-time lookup walks the history in log order). Walking in
+        # timestamp order is the same thing only while timestamps never decrease
+        # in commit order; after a backwards clock step (NTP, a writer host whose
+        # clock runs behind) it returned a snapshot that a later commit had
+        # already superseded.
         target_snapshot = None
-        for snapshot in sorted(snapshots, key=lambda s: s.timestamp_ms):
+        in_commit_order = sorted(
+            enumerate(snapshots), key=lambda p: (p[1].sequence_number or 0, p[0])
+        )
+        for _, snapshot in in_commit_order:
             if snapshot.timestamp_ms <= timestamp_ms:
                 target_snapshot = snapshot
-            else:
-                break
 
         return target_snapshot
 
